@@ -10,8 +10,10 @@
 #include <algorithm>
 #include <set>
 #define ONEAPI_SRC_ONETBB_VERIF 1
-static void verif_offer(long left_body, long mid, long hi);
-#define __TBB_VERIF_REDUCE_OFFER(l, r) verif_offer((l).my_body->id, (r).my_range.begin(), (r).my_range.end())
+struct LBody;
+static void verif_offer(const LBody* left_body, long mid, long hi);
+template <class B> static void verif_offer(const B*, long, long) {}     // reductions with other bodies are not logged
+#define __TBB_VERIF_REDUCE_OFFER(l, r) verif_offer((l).my_body, (r).my_range.begin(), (r).my_range.end())
 #include "oneapi/tbb/parallel_reduce.h"
 #include "oneapi/tbb/parallel_scan.h"
 #include "oneapi/tbb/parallel_sort.h"
@@ -24,7 +26,6 @@ static std::vector<long> g_log;
 static std::atomic<int> g_ids{0};
 static long g_spin = 0;
 static void logev(long a, long b, long c, long d) { std::lock_guard<std::mutex> l(g_m); g_log.push_back(a); g_log.push_back(b); g_log.push_back(c); g_log.push_back(d); }
-static void verif_offer(long left_body, long mid, long hi) { logev(4, left_body, mid, hi); }
 static void spin_a_bit(long n) { volatile long x = 0; for (long i = 0; i < n; ++i) x += i; }
 
 struct LBody {
@@ -38,6 +39,8 @@ struct LBody {
     }
     void join(LBody& rhs) { logev(3, id, rhs.id, 0); acc.insert(acc.end(), rhs.acc.begin(), rhs.acc.end()); }
 };
+
+static void verif_offer(const LBody* left_body, long mid, long hi) { logev(4, left_body->id, mid, hi); }
 
 struct TBody {   // builds the split/join tree term: join is neither associative nor commutative
     std::vector<long> enc;
@@ -114,11 +117,27 @@ int main(int argc, char** argv) {
             }
         } else if (m == "dreduce") {
             int part = (int)c[0], P = (int)c[1]; long lo = (long)c[2], hi = (long)c[3], g = (long)c[4];
+            int form = c.size() > 5 ? (int)c[5] : 0;     // bit0: lambda form, bit1: explicit task_group_context, bit2: explicit partitioner argument
             tbb::global_control gc(tbb::global_control::max_allowed_parallelism, P);
-            TBody b;
-            if (part == 0) tbb::parallel_deterministic_reduce(tbb::blocked_range<long>(lo, hi, g), b, tbb::simple_partitioner());
-            else tbb::parallel_deterministic_reduce(tbb::blocked_range<long>(lo, hi, g), b, tbb::static_partitioner());
-            for (long x : b.enc) o.put(x);
+            tbb::blocked_range<long> r(lo, hi, g);
+            tbb::task_group_context ctx;
+            typedef std::vector<long> V;
+            auto func = [](const tbb::blocked_range<long>& rr, V x) { TBody b; b.enc = x; b(rr); return b.enc; };
+            auto red = [](V a, V b) { if (a.empty()) return b; if (b.empty()) return a; V n{1}; n.insert(n.end(), a.begin(), a.end()); n.insert(n.end(), b.begin(), b.end()); return n; };
+            V res;
+            bool lam = form & 1, wctx = form & 2, wpart = (form & 4) || part == 2;
+            if (!lam) {
+                TBody b;
+                if (part == 2) { if (wctx) tbb::parallel_deterministic_reduce(r, b, tbb::static_partitioner(), ctx); else tbb::parallel_deterministic_reduce(r, b, tbb::static_partitioner()); }
+                else if (wpart) { if (wctx) tbb::parallel_deterministic_reduce(r, b, tbb::simple_partitioner(), ctx); else tbb::parallel_deterministic_reduce(r, b, tbb::simple_partitioner()); }
+                else { if (wctx) tbb::parallel_deterministic_reduce(r, b, ctx); else tbb::parallel_deterministic_reduce(r, b); }
+                res = b.enc;
+            } else {
+                if (part == 2) { res = wctx ? tbb::parallel_deterministic_reduce(r, V(), func, red, tbb::static_partitioner(), ctx) : tbb::parallel_deterministic_reduce(r, V(), func, red, tbb::static_partitioner()); }
+                else if (wpart) { res = wctx ? tbb::parallel_deterministic_reduce(r, V(), func, red, tbb::simple_partitioner(), ctx) : tbb::parallel_deterministic_reduce(r, V(), func, red, tbb::simple_partitioner()); }
+                else { res = wctx ? tbb::parallel_deterministic_reduce(r, V(), func, red, ctx) : tbb::parallel_deterministic_reduce(r, V(), func, red); }
+            }
+            for (long x : res) o.put(x);
         } else if (m == "scan") {
             int part = (int)c[0], P = (int)c[1]; long lo = (long)c[2], hi = (long)c[3], g = (long)c[4]; g_spin = (long)c[5];
             tbb::global_control gc(tbb::global_control::max_allowed_parallelism, P);
